@@ -38,7 +38,11 @@ func checkC16(c *Ctx) {
 	if encBody == nil || encBlock == nil || decBody == nil || decExpr == nil || schema == nil || popBody == nil || decStruct == nil {
 		return
 	}
-	inGohcl := func(f *ssa.Function) bool { return fnPkg(f) != nil && fnPkg(f).Path() == gohclPath }
+	allowed := map[string]bool{gohclPath: true}
+	if c.Thorough() {
+		allowed[modPath+"/hclsimple"] = true // thorough: the file-level front end of gohcl as well
+	}
+	inGohcl := func(f *ssa.Function) bool { return fnPkg(f) != nil && allowed[fnPkg(f).Path()] }
 	reach := func(roots ...*ssa.Function) []*ssa.Function {
 		seen := map[*ssa.Function]bool{}
 		var out []*ssa.Function
@@ -149,7 +153,18 @@ func checkC16(c *Ctx) {
 	// G3 decode.panics
 	c.Rule("G3 decode.panics: every explicit panic in the functions reachable inside gohcl from DecodeBody, DecodeExpression and ImpliedBodySchema is controlled only by branch conditions whose backward slice (through operands, call arguments and receivers, within the function) contains no configuration content — no value of type hcl.Body, hcl.Expression, *hcl.Attribute, hcl.Attributes, *hcl.Block, hcl.Blocks, *hcl.BodyContent, hcl.Diagnostics, hcl.Traversal or cty.Value: a panic decided by the Go target type is a programming error the property excludes, one decided by content is a crash on input")
 	nPanics := 0
-	decAll := reach(decBody, decExpr, schema)
+	decRoots := []*ssa.Function{decBody, decExpr, schema}
+	if c.Thorough() {
+		for _, n := range []string{"Decode", "DecodeFile"} {
+			if f := c.P.LookupFunc("hclsimple", n); f != nil {
+				decRoots = append(decRoots, f)
+				c.Fn(FuncName(f))
+			} else {
+				c.CheckerFail("anchors", "hclsimple."+n+" does not resolve")
+			}
+		}
+	}
+	decAll := reach(decRoots...)
 	for _, f := range decAll {
 		for _, b := range f.Blocks {
 			for _, ins := range b.Instrs {
